@@ -275,7 +275,11 @@ func (s *Solver) Check(pc []*Term, extra *Term, wantModel bool) (Result, Model) 
 	}
 	s.send(fmt.Sprintf("(check-sat-using (try-for qfbv %d))", s.timeoutMs))
 	tq := time.Now()
+	// watchdog: the tactic's own time limit is not always honoured
+	proc := s.cmd.Process
+	wd := time.AfterFunc(time.Duration(s.timeoutMs)*time.Millisecond*3/2+2*time.Second, func() { proc.Kill() })
 	res, msg := s.readResult()
+	wd.Stop()
 	if s.log != nil {
 		fmt.Fprintf(s.log, "; -> %s in %dms\n", res, time.Since(tq).Milliseconds())
 	}
